@@ -26,7 +26,9 @@ var poolRegexp = []string{`/{x:\d+}`, `/a/{x:\d+}`, `/a/{x:\d+}.h`, `/a/{x:\d*}`
 	// rules with more than one admissible capture before their literal: lazy quantifier, ordered alternation (leftmost-first, never widened)
 	`/{x:.+?}/b`, `/a/{x:a|ab}b`,
 	// literal text after a regexp parameter in which two routes share the first bytes of a multi-byte character
-	"/a/{x:\\d+}/\u4e2d", "/a/{x:\\d+}/\u4e3d"}
+	"/a/{x:\\d+}/\u4e2d", "/a/{x:\\d+}/\u4e3d",
+	// a rule whose values contain the literal that follows the parameter: the first occurrence is refused, a later one taken
+	`/a/{x:\d+-\d+}-{y}`}
 var poolGreedy = []string{`/{x:.+}/b`}
 var poolIcpt = []string{"/a/{x:digit}", "/a/{x:digit}/b", "/{x:word}/b", "/a/{x:any}", "/a/{-x:digit}/c", "/a/{x:any}bb", "/a/{x:digit}/cd", "/a/{x:digit}/ce", "/a/{x:range}-{y}", "/a/{x:range}-b"}
 var indexBlock = []string{"/c", "/d", "/e", "/f", "/g"}
@@ -43,7 +45,7 @@ func poolD(ic string, tier string) []string {
 	return d
 }
 
-var paramValues = []string{"", "1", "12", "a", "b", "z", "1/b", "a/b", "a-b", "1.h", "ab", "1bb", "1-2", "1-12-b", "abb", "a/b/b", "*", "\u0661", "\u00e9"} // the last: a non-ASCII digit and letter
+var paramValues = []string{"", "1", "12", "a", "b", "z", "1/b", "1-2", "a/b", "a-b", "1.h", "ab", "1bb", "1-12-b", "abb", "a/b/b", "*", "\u0661", "\u00e9"} // the last: a non-ASCII digit and letter
 
 // probeSet builds the finite probe set of a table.
 func probeSet(pats []*ref.Pattern, maxLen int) []string {
